@@ -144,51 +144,41 @@ def addPaths (E : Ext) (ctx : ParseContext) (d : ParsedData) (paths : List (List
 def usePaths : UseTree → List (List Str)
   | _ => []   -- `use` trees contain idents, not `syn::Path`s
 
+/-- `has_typeshare_annotation(attrs) && self.target_os_accepted(attrs)` -/
+def accepted (ctx : ParseContext) (attrs : List Attr) : Bool :=
+  hasTypeshareAnnotation attrs && (TargetOs.accept attrs ctx.targetOs).getD true
+
+/-- `visit_item_*`: parse the item when it is annotated and accepted, keep the outcome -/
+def collectIf (ctx : ParseContext) (filePath : Str) (d : ParsedData) (attrs : List Attr)
+    (parse : Outcome RustItem) : Outcome ParsedData :=
+  if accepted ctx attrs then collectResult d filePath parse else pure d
+
 mutual
   /-- the visitor over one item (pre-order, descending into modules and function bodies) -/
   def visitItem (E : Ext) (ctx : ParseContext) (filePath : Str) (d : ParsedData) : Item → Outcome ParsedData
     | .struct attrs ident gens fields =>
-      let r := if hasTypeshareAnnotation attrs && (TargetOs.accept attrs ctx.targetOs).getD true then
-          collectResult d filePath (parseStruct E ctx.targetOs attrs ident gens fields)
-        else .ok d
-      match r with
-      | .ok d' => .ok (addPaths E ctx d' (attrPaths attrs ++ fieldsPaths fields))
-      | other => other
+      (collectIf ctx filePath d attrs (parseStruct E ctx.targetOs attrs ident gens fields)).bind fun d' =>
+        pure (addPaths E ctx d' (attrPaths attrs ++ fieldsPaths fields))
     | .enum attrs ident gens variants =>
-      let r := if hasTypeshareAnnotation attrs && (TargetOs.accept attrs ctx.targetOs).getD true then
-          collectResult d filePath (parseEnum E ctx.targetOs attrs ident gens variants)
-        else .ok d
-      match r with
-      | .ok d' => .ok (addPaths E ctx d'
+      (collectIf ctx filePath d attrs (parseEnum E ctx.targetOs attrs ident gens variants)).bind fun d' =>
+        pure (addPaths E ctx d'
           (attrPaths attrs ++ variants.flatMap fun v => attrPaths v.attrs ++ fieldsPaths v.fields))
-      | other => other
     | .alias attrs ident gens ty =>
-      let r := if hasTypeshareAnnotation attrs && (TargetOs.accept attrs ctx.targetOs).getD true then
-          collectResult d filePath (parseTypeAlias E attrs ident gens ty)
-        else .ok d
-      match r with
-      | .ok d' => .ok (addPaths E ctx d' (attrPaths attrs ++ typePaths ty))
-      | other => other
+      (collectIf ctx filePath d attrs (parseTypeAlias E attrs ident gens ty)).bind fun d' =>
+        pure (addPaths E ctx d' (attrPaths attrs ++ typePaths ty))
     | .const attrs ident ty init =>
-      let r := if hasTypeshareAnnotation attrs && (TargetOs.accept attrs ctx.targetOs).getD true then
-          collectResult d filePath (parseConst E attrs ident ty init)
-        else .ok d
-      match r with
-      | .ok d' => .ok (addPaths E ctx d' (attrPaths attrs ++ typePaths ty))
-      | other => other
+      (collectIf ctx filePath d attrs (parseConst E attrs ident ty init)).bind fun d' =>
+        pure (addPaths E ctx d' (attrPaths attrs ++ typePaths ty))
     | .use tree =>
       if ctx.multiFile then
-        .ok (addImports d ((useIter E d.crateName (useSize tree + 1) [tree] none []).filter
+        pure (addImports d ((useIter E d.crateName (useSize tree + 1) [tree] none []).filter
           fun i => !ctx.ignoredTypes.contains i.typeName))
-      else .ok d
+      else pure d
     | .mod attrs _ items => visitItems E ctx filePath (addPaths E ctx d (attrPaths attrs)) items
     | .other paths items => visitItems E ctx filePath (addPaths E ctx d paths) items
   def visitItems (E : Ext) (ctx : ParseContext) (filePath : Str) (d : ParsedData) : List Item → Outcome ParsedData
-    | [] => .ok d
-    | i :: is =>
-      match visitItem E ctx filePath d i with
-      | .ok d' => visitItems E ctx filePath d' is
-      | other => other
+    | [] => pure d
+    | i :: is => (visitItem E ctx filePath d i).bind fun d' => visitItems E ctx filePath d' is
 end
 
 def allReferences (U : UnicodeOps) (d : ParsedData) : List Str :=
@@ -225,14 +215,11 @@ def parseFile (E : Ext) (ctx : ParseContext) (pick : List ImportedType → Optio
   if !f.marker then .ok none else
   let d0 : ParsedData := { crateName, fileName, multiFile := ctx.multiFile }
   if (TargetOs.accept f.attrs ctx.targetOs).getD true then
-    match visitItems E ctx filePath (addPaths E ctx d0 (attrPaths f.attrs)) f.items with
-    | .ok d =>
-      if isEmpty d then .ok none
-      else if d.multiFile then .ok (some (reconcileReferencedTypes E.U pick d))
-      else .ok (some d)
-    | .err e => .err e
-    | .panic s => .panic s
-  else .ok none
+    (visitItems E ctx filePath (addPaths E ctx d0 (attrPaths f.attrs)) f.items).bind fun d =>
+      if isEmpty d then pure none
+      else if d.multiFile then pure (some (reconcileReferencedTypes E.U pick d))
+      else pure (some d)
+  else pure none
 
 end Visitor
 end TsV
